@@ -69,6 +69,24 @@ func c03GenInnerBlob(rt *rapid.T) []byte {
 		if rapid.IntRange(0, 1).Draw(rt, "lie_c") == 0 {
 			nc = rapid.SampledFrom(append([]uint64{nc + 1, nc - 1}, c03Hostile...)).Draw(rt, "nc")
 		}
+		if z > 1 && rapid.IntRange(0, 4).Draw(rt, "wrap_jz") == 0 {
+			// |j| chosen so that |j|*z wraps modulo 2^64 to a small number: the jump-table byte
+			// count then "fits" the data although the declared entry count is astronomically large;
+			// the code is a dynamic jump that indexes far into that table
+			nj = ^uint64(0)/uint64(z) + 1 + uint64(rapid.IntRange(0, 8).Draw(rt, "wrapoff"))
+			w := nj * uint64(z) // wraps
+			if w <= 64 {
+				imm := uint32(rapid.SampledFrom([]int{2, 4, 2002, 0x7FFFFFFE}).Draw(rt, "wrapimm"))
+				wcode := []byte{50, 0x02, byte(imm), byte(imm >> 8), byte(imm >> 16), byte(imm >> 24), 0}
+				var wb []byte
+				wb = append(wb, vpNatural(nj)...)
+				wb = append(wb, byte(z))
+				wb = append(wb, vpNatural(uint64(len(wcode)))...)
+				wb = append(wb, make([]byte, w)...)
+				wb = append(wb, wcode...)
+				return append(wb, 0x41) // instruction starts at 0 and 6
+			}
+		}
 		var b []byte
 		b = append(b, vpNatural(nj)...)
 		b = append(b, byte(z))
@@ -125,7 +143,7 @@ func c03GenStdBlob(rt *rapid.T) (blob []byte, declared uint64) {
 }
 
 func c03Gen(rt *rapid.T) c03Input {
-	in := c03Input{Mode: rapid.SampledFrom([]int{0, 1, 1, 1, 2, 2}).Draw(rt, "mode")}
+	in := c03Input{Mode: rapid.SampledFrom([]int{0, 1, 1, 1, 2, 2, 3}).Draw(rt, "mode")}
 	switch in.Mode {
 	case 0:
 		in.Blob = c03GenInnerBlob(rt)
@@ -144,6 +162,14 @@ func c03Gen(rt *rapid.T) c03Input {
 		for i := 0; i < 13; i++ {
 			in.Regs = append(in.Regs, vpGenU64(rt, "ireg"))
 		}
+	}
+	if in.Mode == 3 {
+		// hostile (pointer, length) pairs for the halt output range and a memory-reading host call:
+		// valid pointers with lengths up to 2^64-1, sums that wrap 2^64 / 2^32, unmapped pointers
+		ptr := rapid.SampledFrom([]uint64{0x20000, 0xFEFDF000, 0xFEFE0000 - 1, 0xFEFF0000, 0, 0xFFFFFFFF, 1 << 32, 1 << 63, ^uint64(0)}).Draw(rt, "hptr")
+		ln := rapid.SampledFrom([]uint64{0, 1, 4096, 4097, 1 << 24, 1<<32 - 1, 1 << 32, 1 << 40, 1 << 63, ^uint64(0), ^uint64(0) - 0x20000 + 2, -ptr, 1 - ptr, 4096 - ptr}).Draw(rt, "hlen")
+		in.Regs = []uint64{ptr, ln, uint64(rapid.IntRange(0, 2).Draw(rt, "hvariant"))}
+		in.Gas = 1000
 	}
 	return in
 }
@@ -243,6 +269,54 @@ func c03Check(c *kit.Case, in c03Input) {
 		}
 		if len(in.Blob) >= 15 {
 			c.NonTrivial()
+		}
+	case 3:
+		c.Class("hostile_range")
+		if len(in.Regs) < 3 {
+			return
+		}
+		ptr, ln, variant := in.Regs[0], in.Regs[1], in.Regs[2]
+		var code []byte
+		var k []bool
+		emit := func(b ...byte) {
+			for i, x := range b {
+				code = append(code, x)
+				k = append(k, i == 0)
+			}
+		}
+		if variant >= 1 { // log host call (id 100) reads [ω10, +ω11); ω7 = level 0..4 so that it really reads
+			emit(append([]byte{20, 10}, c03LE(ptr, 8)...)...)
+			emit(append([]byte{20, 11}, c03LE(ln, 8)...)...)
+			emit(51, 7, 1)
+			emit(10, 100)
+		}
+		emit(append([]byte{20, 7}, c03LE(ptr, 8)...)...)
+		emit(append([]byte{20, 8}, c03LE(ln, 8)...)...)
+		emit(50, 0) // jump_ind ω0 (= 2^32-2^16): halt with output range (ω7, ω8)
+		inner := vpAssemble(code, k, nil, 0)
+		var blob []byte
+		blob = append(blob, c03LE(0, 3)...)
+		blob = append(blob, c03LE(4096, 3)...)
+		blob = append(blob, c03LE(0, 2)...)
+		blob = append(blob, c03LE(4096, 3)...)
+		blob = append(blob, make([]byte, 4096)...)
+		blob = append(blob, c03LE(uint64(len(inner)), 4)...)
+		blob = append(blob, inner...)
+		var res Psi_M_ReturnType
+		c03Guarded(c, "Psi_M(halt/host range)", uint64(96<<20), func() {
+			res = Psi_M(StandardCodeFormat(blob), 0, types.Gas(in.Gas), Argument{1, 2, 3}, IsAuthorizedOmegas, HostCallArgs{})
+		})
+		c.NonTrivial()
+		switch v := res.ReasonOrBytes.(type) {
+		case []byte:
+			c.Class("hostile_range_output_bytes")
+			if uint64(len(v)) > ln {
+				c.Failf("halt returned %d output bytes for a requested length of %d", len(v), ln)
+			}
+		case nil:
+			c.Class("hostile_range_output_empty")
+		case ExitReasonType:
+			c.Class(fmt.Sprintf("hostile_range_exit_%d", v))
 		}
 	case 2:
 		c.Class("inner_machine")
